@@ -19,8 +19,10 @@ USES = {
  'C13': ['Str', 'StrFns', 'ParserA', 'ParserB', 'ParseInt'],
  'C14': ['Bytes', 'Bytes2', 'BytesTrim', 'StrFns', 'ParserA', 'ParserB', 'ParseInt'],
  'C16': ['Cmp', 'Cmp2'],
- 'C18': ['StrFns', 'ParserA'],
+ 'C18': ['StrFns', 'ParserA', 'ProbesPm'],
  'C20': ['Chr', 'Slice', 'Concat', 'CStr'],
+ 'C19': ['ProbesOpt'],
+ 'C10': ['SliceIter2', 'ProbesIter'],
 }
 for p, ms in USES.items():
     have = [m for m in ms if os.path.exists(f'{OB}/equiv/{m}.txt')]
